@@ -368,6 +368,14 @@ def register(kernel):
            model="sigma_z ROps absolute s", model_name="Observables.sigma_z", imports=["Bits", "Observables"],
            tactic="intros; cbv [GEN sigma_z finish]; destruct absolute; reflexivity")
 
+    # ------------------------------------------------------------------ C10: the per-basis KL divergence
+    kernel("C10", name="single_basis_KL", file="qucumber/utils/training_statistics.py", func="_single_basis_KL", vec=True,
+           inputs=[("target_probs", "t", "V"), ("nn_probs", "q", "V")], hole_types={"x": "V"},
+           atoms=[("probs_to_logits($x)", "(map (plogit ROps) $x)", "V")],
+           coq_params=[("t", "list R"), ("q", "list R")], result=F, thm_params=[("t", "list R"), ("q", "list R")], gen_args="t q",
+           model="single_basis_KL ROps t q", model_name="Metrics.single_basis_KL", imports=["Bits", "Metrics"],
+           tactic="intros; cbv [GEN single_basis_KL]; rewrite !sum_vmul_dot, dot_self_map; reflexivity")
+
 
 def register_corollaries(cor):
     """property-level facts stated over SEVERAL generated kernels at once (compiled with the combined generated file)"""
